@@ -522,7 +522,7 @@ pub fn check_main(a: CheckArgs) -> i32 {
                     "budget_hook_fired (a violation detector, 0 when T holds; fires under S05/T11/T16)": counters.get("budget_fired"),
                 },
                 "crash_point_enumeration": {"runs": runs.get("crash"), "exhaustive": a.thorough && a.strata.iter().any(|s| s == "crash"),
-                    "note": "thorough: every step of every workload task that takes fewer than 1000 steps alone (all but the few hundred variants of the dag-*/chain-* modules, for which the first two and the last occurrence of every site are used), every option set, with and without comments; quick: first two and last occurrence of every site, option sets own/all with comments. `exhaustive` refers to that sub-space: one crash, at any such step, followed by the same task and a bystander on the same worker"},
+                    "note": "thorough: every step of every workload task that takes fewer than 1000 steps alone (all but the few hundred variants of the dag-*/chain-* modules, for which the first two and the last occurrence of every site are used), every option set, with and without comments; quick: first two and last occurrence of every site, the module's own option set (plus all-on for the repository's fixtures and workload/state) with comments. `exhaustive` refers to that sub-space: one crash, at any such step, followed by the same task and a bystander on the same worker"},
                 "self_audit": {"runs_executed_twice": audits, "event_log_mismatches": audit_mismatch},
                 "minimiser_executions": minimise_execs,
                 "violations_before_dedup": violations_total,
